@@ -16,4 +16,9 @@ TEXT = {
         "level": "Generated search over all int64 nanosecond counts and correction fields (corner-dense), the 48-bit timestamp range, drift/interval pairs and offset/delay/correction combinations up to 2^60 ns; the 6.6e7 scaled-ppm values are enumerated completely in the thorough tier. Exploration, not proof.",
         "note": "Trusts math/big. Drift() is exercised on the real driver/clocks.SystemClock (no privileged call involved); Sleep/Step/Adjust of that clock are out of scope of C18.",
     },
+    "C14": {
+        "technique": "property-based round-trip testing (rapid) per codec with an independent field reader / extension-field walker as second oracle; exhaustive enumeration of 8-bit (quick) and 16-bit (thorough) NTP fields; generated read segmentations for NTS-KE streams (metamorphic: result independent of segmentation)",
+        "level": "Generated search: arbitrary 48..2048-byte NTP datagrams, CSPTP headers and TLVs, NTS packets within the size limit, server cookies, NTS-KE messages under generated read-size schedules. Exploration; exhaustive only for the enumerated NTP sub-fields.",
+        "note": "NTS-KE AEAD lists with several algorithms and hostile length fields are outside the generator (see DESIGN C14 limits; C08 owns hostile input). Found and repaired P2 (a656d56) and P7 (2bdea76).",
+    },
 }
